@@ -17,7 +17,7 @@ from vlib import harness
 ID = "C18"
 LEVEL = "exploration"
 RULE = ("a case is one store (in a process time zone drawn from UTC, Asia/Tokyo, Etc/GMT+5, Europe/Paris, America/New_York; in the two DST zones access times often straddle the repeated hour at the end of DST) of 0-12 entries (real cached calls of 1-3 functions returning bytes of chosen sizes - in a third of the stores one of them is defined inside another cached function, so its entries live below that function's directory - plus empty "
-        "32-hex 'zero-size' entries), access times set with os.utime (ties, increasing, seconds to months), and one "
+        "32-hex 'zero-size' entries), access times set with os.utime (ties, increasing, seconds to months, and times ahead of the clock), and one "
         "(bytes_limit, items_limit, age_limit) triple from {None, 0, exact fit, fit-1, half, '1K', '0.5K', huge} x "
         "{None, 0, 1, n-1, n, n+1} x {None, 0s, between two entries, older than all, a fractional limit 0.45 s away from one entry}; distinct_nontrivial counts distinct "
         "(sizes, ages, limits) stores in which at least one entry was evicted and at least one limit was given")
@@ -154,7 +154,7 @@ def run_case(case, ctx):
             os.makedirs(zd)
             zdirs.append(zd)
         now = time.time()
-        mode = rng.choice(["ties", "increasing", "spread", "spread"])
+        mode = rng.choice(["ties", "increasing", "spread", "spread", "future", "future-mixed"])
         fold = {"Europe/Paris": 1761440400, "America/New_York": 1762063200}.get(tz)     # end of DST 2025: the local hour before is repeated
         if fold and rng.random() < 0.6:
             mode = "dst-fold"
@@ -169,9 +169,15 @@ def run_case(case, ctx):
                 a = rng.choice([3600, 3600, 86400])
             elif mode == "increasing":
                 a = 600 + 137 * k
+            elif mode == "future" or (mode == "future-mixed" and k % 2):
+                # access times AHEAD of this machine's clock (a file server with another clock, a restored backup): a
+                # negative age; still totally ordered, the most recently used entry is the one furthest ahead
+                a = -(rng.choice([90, 600, 86400, 86400 * 30]) + 7 * k)
             else:
                 a = rng.choice([120, 300, 3600, 86400, 86400 * 40, 86400 * 400]) + rng.choice([0, 0, 1, 2, 0.5])
             ages[p] = a
+            if a < 0:
+                ctx.count("entries_with_an_access_time_in_the_future")
             target = os.path.join(p, "output.pkl") if p in dirs else p
             os.utime(target, (now - a, now - a))
         # fractional age limits: one entry is placed 0.45 s past a whole number of seconds A and the age limit is
@@ -181,7 +187,7 @@ def run_case(case, ctx):
         if real and rng.random() < 0.25:
             tp = rng.choice(real)
             A = int(ages[tp])
-            if all(abs(ages[q] - A) >= 60 for q in all_dirs if q != tp):
+            if A > 60 and all(abs(ages[q] - A) >= 60 for q in all_dirs if q != tp):
                 T0 = time.time()
                 os.utime(os.path.join(tp, "output.pkl"), (T0 - A - 0.45, T0 - A - 0.45))
                 ages[tp] = A + 0.45
@@ -218,7 +224,7 @@ def run_case(case, ctx):
             age_choices.append(sorted_ages[-1] + 86400)
             if sorted_ages[0] > 100:
                 age_choices.append(sorted_ages[0] - 65)
-        age = rng.choice(age_choices)
+        age = rng.choice([x for x in age_choices if x is None or x >= 0])    # a negative age limit is rejected by reduce_size
         if age is not None and age != 0 and any(abs(a - age) < 60 for a in ages.values()):
             age = None
         if frac is not None:
